@@ -111,31 +111,39 @@ def observe(m, spec, seed):
 
 
 
-COQ_EXTRA = r'''From Gen Require Import Elements SmilesTables.
+COQ_EXTRA = r'''From Coq Require Import FMapPositive.
+From Gen Require Import Elements SmilesTables.
 Import ListNotations.
 Open Scope Z_scope.
-Definition wfun (w : list (Z * Z)) : Z -> Z := fun n => match zget w n with Some x => x | None => 0 end.
-Definition tbfun (order : list Z) : Z -> Z := fun n => match index_of order n with Some i => i | None => 0 end.
+(* the input functions w and tb are finite tables; they are looked up through a binary trie built once per case (the model calls
+   them O(n^3) times per molecule) *)
+Definition zkey (n : Z) : positive := Z.to_pos (n + 1).
+Definition mk_map (l : list (Z * Z)) : PositiveMap.t Z :=
+  fold_left (fun t kv => PositiveMap.add (zkey (fst kv)) (snd kv) t) (rev l) (PositiveMap.empty Z).
+Definition wfun (w : list (Z * Z)) : Z -> Z :=
+  let t := mk_map w in fun n => match PositiveMap.find (zkey n) t with Some x => x | None => 0 end.
+Definition tbfun (order : list Z) : Z -> Z := wfun (combine order (zrange 0 (Z.of_nat (List.length order)))).
 (* one run of the writer model: the Python list `string`, `order`, and the text of format()/str() *)
 Definition wcase (g : mol) (w : list (Z * Z)) (spec : string) (tabs : stabs)
-                 (strings : list string) (order : list Z) (text : string) : bool :=
+                 (strings : string) (order : list Z) (suffix : string) : bool :=
   let o := opts_of_spec spec in
   match smiles_tokens g (wfun w) (tbfun order) o tabs with
   | Ok (Some (out, ord)) =>
-      string_list_eqb (map spell_otok out) strings && zlist_eqb ord order &&
+      String.eqb (String.concat "," (map spell_otok out)) strings && zlist_eqb ord order &&
       String.eqb (match (if o_cx o then format_cxsmiles g ord else None) with
-                  | Some cx => scat [spell out; " "%string; cx]
-                  | None => spell out
-                  end) text
+                  | Some cx => scat [" "%string; cx]
+                  | None => EmptyString
+                  end) suffix
   | _ => false
   end.
 (* the same through Writer.smiles_text / smiles_strings (the definitions the theorems speak about) *)
 Definition wcase_full (g : mol) (w : list (Z * Z)) (spec : string) (tabs : stabs)
-                 (strings : list string) (order : list Z) (text : string) : bool :=
+                 (strings : string) (order : list Z) (suffix : string) : bool :=
   let o := opts_of_spec spec in
   match smiles_strings g (wfun w) (tbfun order) o tabs, smiles_text g (wfun w) (tbfun order) o tabs with
   | Ok (ss, ord), Ok (txt, ord') =>
-      string_list_eqb ss strings && zlist_eqb ord order && zlist_eqb ord' order && String.eqb txt text
+      String.eqb (String.concat "," ss) strings && zlist_eqb ord order && zlist_eqb ord' order &&
+      String.eqb txt (scat [scat ss; suffix])
   | _, _ => false
   end.
 Definition wcase_err (g : mol) (spec : string) (e : pyexn) : bool :=
@@ -148,7 +156,7 @@ Definition P := mkParsed.
 
 def case_term(mname, wname, tname, spec, ob, full=False):
     return (f'{"wcase_full" if full else "wcase"} {mname} {wname} {cs(spec)} {tname} '
-            f'{lst(ob["strings"], cs)} {lst(ob["order"], zraw)} {cs(ob["text"])}')
+            f'{cs(",".join(ob["strings"]))} {lst(ob["order"], zraw)} {cs(ob["text"][len(ob["joined"]):])}')
 
 
 def run_shards(name, shards, timeout=900):
@@ -261,7 +269,7 @@ def pool(ck):
     rng = random.Random(f'{ck.seed}:c02pool')
     quick = ck.tier == 'quick'
     mols = special_molecules() + api_molecules()
-    for salt, src, k in (('lipo', corpus.lipo(), 110 if quick else 1200), ('stereo', corpus.stereo_smiles(), 60 if quick else 600)):
+    for salt, src, k in (('lipo', corpus.lipo(), 100 if quick else 1200), ('stereo', corpus.stereo_smiles(), 60 if quick else 600)):
         for smi in corpus.sample(src, k, ck.seed, 'c02' + salt):
             try:
                 m = smiles(smi)
@@ -272,7 +280,7 @@ def pool(ck):
             mols.append((smi, m))
     ren = []
     for name, m in mols:
-        if rng.random() < (0.35 if quick else 0.6) and len(m) > 1:
+        if rng.random() < (0.3 if quick else 0.6) and len(m) > 1:
             try:
                 ren.append((name + '#renumbered', corpus.renumber(m, rng)))
             except Exception:
@@ -335,10 +343,10 @@ def corr_writer(ck, mols):
         md = [f'Definition m{i} : mol := {mt}.', f'Definition t{i} : stabs := {tt}.']
         wdone = {}
         # every molecule: canonical + 3 rotating specs; every 6th molecule and the special ones: all specs
-        if name in SPECIAL_SET or i % 6 == 0:
+        if i % 5 == 0:
             specs = list(specs_all)
         else:
-            specs = [''] + rng.sample(specs_all[1:], 3)
+            specs = [''] + rng.sample(specs_all[1:], 3 if name in SPECIAL_SET else 2)
         local = []
         for j, spec in enumerate(specs):
             try:
@@ -368,7 +376,7 @@ def corr_writer(ck, mols):
         defs.extend(md)
         cases.extend(local)
         size += sum(len(x) for x in md) + sum(len(x) for x in local)
-        if size > 120_000:
+        if size > 90_000:
             close()
     close()
     # the empty molecule: format() unpacks the bare [] returned by _smiles
@@ -466,7 +474,7 @@ def corr_reader(ck, texts):
         if s not in seen and all(32 <= ord(c) < 127 for c in s) and not any(c in s for c in ';,!'):
             seen.add(s)
             tk_inputs.append(s)
-    for t in texts:
+    for t in (texts if not quick else corpus.sample(sorted(set(texts)), 900, ck.seed, 'c02tkw')):
         add(t.split(' ')[0])
     n_written = len(tk_inputs)
     for L in range(0, 3 if quick else 4):
@@ -518,7 +526,7 @@ def corr_reader(ck, texts):
             for st in ('', '@', '@@', '@@@'):
                 for h in ('', 'H', 'H0', 'H1', 'H4', 'H5', 'H12', 'HH'):
                     for chg in ('', '+', '-', '+2', '-4', '+5', '++', '+-', '--', '+++', '-1', '+1+'):
-                        if rng.random() < (0.03 if quick else 0.3):
+                        if rng.random() < (0.004 if quick else 0.2):
                             for mp in ('', ':1', ':0', ':9999', ':10000', ':', ':a', ':12x'):
                                 add2(iso + sym + st + h + chg + mp)
     for _ in range(400 if quick else 4000):
@@ -529,9 +537,10 @@ def corr_reader(ck, texts):
     ck.count('atom_parse:bodies-written', n_body)
     ck.count('atom_parse:other-bodies', len(ap_inputs) - n_body)
     allc = cases + ap_cases
-    ok, failing, log = coqcases.run_cases('c02r', 'Graph PeriodicTable Stereo Writer', allc, extra=COQ_EXTRA, shard=2500)
+    SH = 500
+    ok, failing, log = run_shards('c02r', [('', allc[i:i + SH]) for i in range(0, len(allc), SH)])
     inputs = tk_inputs + ap_inputs
-    bad = [(('tokenize' if i < len(cases) else 'atom_parse'), inputs[i]) for i in failing]
+    bad = [(('tokenize' if k * SH + i < len(cases) else 'atom_parse'), inputs[k * SH + i]) for k, i in failing]
     ck.extra['reader_correspondence_cases'] = len(allc)
     ck.oblige('correspondence: _tokenize (SMILES alphabet) and _atom_parse == Writer.tokenize / Writer.atom_parse', ok and not bad,
               'correspondence', log or repr(bad[:10]))
@@ -624,7 +633,8 @@ def compare_along(m, m2, f, stereo=True):
         return [f'atom count {len(m._atoms)} -> {len(m2._atoms)}']
     for n, a in m._atoms.items():
         a2 = m2._atoms[f[n]]
-        if atom_sig(a) != atom_sig(a2):
+        # implicit_hydrogens None = "not determined" (aromatic heteroatom before kekule(), valence error): nothing to lose there
+        if atom_sig(a)[:4] != atom_sig(a2)[:4] or (a.implicit_hydrogens is not None and a.implicit_hydrogens != a2.implicit_hydrogens):
             diffs.append(f'atom {n}: (Z, isotope, charge, radical, H) {atom_sig(a)} -> {atom_sig(a2)}')
     nb = 0
     for n, k, bd in m.bonds():
@@ -907,20 +917,26 @@ SKELETONS = {
 DECOR = [('C', 0, None), ('N', 0, None), ('O', 0, None), ('N', 1, None), ('O', -1, None), ('C', 0, 13)]
 
 
-def search_small_graphs(ck, max_atoms, decor):
-    """exhaustive decorated graphs: molecules with the same canonical string must be identical under some atom permutation"""
+def search_small_graphs(ck, max_atoms, decor, full_upto):
+    """exhaustive decorated graphs: molecules with the same canonical string must be identical under some atom permutation.
+    up to `full_upto` atoms: every decoration of `decor` and bond orders 1 2 3; above: elements C N O, orders 1 2"""
     from chython import MoleculeContainer
+    from chython.periodictable import Element
     groups = {}
     n_mols = 0
     for na in range(1, max_atoms + 1):
         skels = SKELETONS.get(na, []) if na > 1 else [[]]
         for sk in skels:
-            for els in itertools.product(decor, repeat=na):
-                for ords in itertools.product((1, 2, 3), repeat=len(sk)):
+            for els in itertools.product(decor if na <= full_upto else DECOR[:3], repeat=na):
+                for ords in itertools.product((1, 2, 3) if na <= full_upto else (1, 2), repeat=len(sk)):
                     m = MoleculeContainer()
                     try:
                         for i, (sym, chg, iso) in enumerate(els):
-                            m.add_atom(sym, i + 1, charge=chg, **({'isotope': iso} if iso else {}))
+                            cls = Element.from_symbol(sym)
+                            a = cls(isotope=iso) if iso else cls()
+                            if chg:
+                                a.charge = chg
+                            m.add_atom(a, i + 1)
                         for (x, y), o in zip(sk, ords):
                             m.add_bond(x + 1, y + 1, o)
                     except Exception:
@@ -961,7 +977,7 @@ def search(ck, mols):
     found = search_roundtrip(ck, sub, n_random=2 if quick else 5, full=not quick)
     stereo_mols = [x for x in mols if sum(n_labels(x[1])) > 0 and '#' not in x[0]]
     found += search_stereoisomers(ck, stereo_mols if not quick else stereo_mols[:90], max_labels=5 if quick else 8)
-    found += search_small_graphs(ck, 4 if quick else 5, DECOR[:5] if quick else DECOR)
+    found += search_small_graphs(ck, 4 if quick else 5, DECOR[:5] if quick else DECOR, 3 if quick else 4)
     # the two recorded defect classes are exercised on every run (they must be reported as long as they exist)
     known_probes(ck)
     return found
@@ -1031,12 +1047,25 @@ def run(ck):
                         'search: write in each style and random orders -> chython reader -> attribute comparison along the written order, stereo via '
                         '_translate_*_sign and via RDKit; injectivity on all stereoisomers of sampled molecules and on exhaustive decorated graphs <= 4 (5) atoms. '
                         'non-trivial = molecule with more than 2 atoms / tokenizer input non-empty / bracket body accepted')
+    import time
+    tm = {}
+    t0 = time.time()
     proved = common.standard_proof_steps(ck, translators=['smiles_tables', 'elements', 'stereo'])
+    tm['proof_steps'] = round(time.time() - t0, 1)
+    t0 = time.time()
     mols = pool(ck)
+    tm['pool'] = round(time.time() - t0, 1)
+    t0 = time.time()
     tied_w, bad_w = corr_writer(ck, mols)
+    tm['corr_writer'] = round(time.time() - t0, 1)
+    t0 = time.time()
     texts = sorted({t for name, m in mols[:400] for t in (str(m),)})
     tied_r, bad_r = corr_reader(ck, texts + WRITTEN_TEXTS)
+    tm['corr_reader'] = round(time.time() - t0, 1)
+    t0 = time.time()
     found = search(ck, mols)
+    tm['search'] = round(time.time() - t0, 1)
+    ck.extra['timing_s'] = tm
     if not (tied_w and tied_r):
         found += directed_search(ck, bad_w, bad_r)
     ck.extra['proved'] = proved
